@@ -3,8 +3,25 @@ from ..core import Report
 from . import runlevel
 
 
+def stalling_noisy_specs(ctx):
+    """Noisy small-unit objectives: improvements and history differences are of the order of tol_fun, so polls that succeed on the
+    GP estimate while the run counts as stalling (and failed polls that are quartered) are frequent."""
+    from .. import gen
+    rng = ctx.sub_rng("c13stall")
+    specs = []
+    for _ in range(10 if ctx.quick else 80):
+        sp = gen.make_spec(rng, D=rng.choice([1, 2, 2, 3]), geom=rng.choice(["box", "tight"]), mode=rng.choice(["decl", "auto", "he"]), cons=None, target=rng.choice(["quad", "abs"]))
+        sp["yscale"] = rng.choice([0.02, 0.05, 0.1])
+        sp["noise"] = rng.choice([0.3, 1.0])
+        sp["options"] = {"n_search": 32, "max_fun_evals": rng.choice([110, 150]), "noise_final_samples": 0}
+        specs.append(sp)
+    return specs
+
+
 def run(ctx):
     rep = Report()
+    runlevel.with_extra(ctx, "c13stall", lambda: stalling_noisy_specs(ctx))
+    runlevel.scripted_controller_runs(ctx, "c13script", 12 if ctx.quick else 120)
     stats, samples = runlevel.ctl_replay(ctx, rep, "C13")
     traces = runlevel.get_pool(ctx)
     rep.coverage = {
@@ -23,7 +40,7 @@ def run(ctx):
 def replay(ctx, data):
     rep = Report()
     from .. import tracer
-    ctx._pool = [tracer.run_traced(data["case"]["spec"])]
+    ctx._pool = [tracer.run_traced(data["case"]["spec"], **(data["case"].get("kw") or {}))]
     runlevel.ctl_replay(ctx, rep, "C13")
     return rep
 
